@@ -252,15 +252,15 @@ int mon_threads(const mon_args_t *a) {
     hx_cls("T=%d:conc_ops=%d", T, nconc);
     HX.nontrivial = omp_mode ? 1 : pairs > 0;
     /* TSan reports */
-    int nrep = __atomic_load_n(&NREP, __ATOMIC_ACQUIRE);
+    int nrep = __atomic_load_n(&NREP, __ATOMIC_ACQUIRE), harness_race = 0;
     for (int k = 0; k < nrep && k < MAXREP; k++) {
       char a0[128], a1[128], i0[128], i1[128], key[400];
       outer_lib(REP[k].stk[0], REP[k].n[0], a0, sizeof a0, i0, sizeof i0);
       outer_lib(REP[k].stk[1], REP[k].n[1], a1, sizeof a1, i1, sizeof i1);
       if (!a0[0] && !a1[0]) {
-        hx_note("TSan report without a library frame (harness?)");
-        snprintf(key, sizeof key, "harness|tsan|-|report-outside-library");
-        hx_fail(key, "ThreadSanitizer report whose stacks contain no library frame");
+        /* a race between harness frames only is a defect of the harness, never a verdict about the library */
+        hx_note("HARNESS-RACE: ThreadSanitizer report whose stacks contain no library frame");
+        harness_race = 1;
         continue;
       }
       /* key: the innermost library functions of the two accesses (defect specific, independent of the caller) */
@@ -274,6 +274,7 @@ int mon_threads(const mon_args_t *a) {
               NREP_TOTAL);
     }
     hx_tag("tsan_reports=%d", NREP_TOTAL > 99 ? 99 : NREP_TOTAL);
+    if (harness_race) hx_tag("harness_race");
     for (int t = 0; t < T; t++) {
       free(W[t].dig);
       free(W[t].opix);
